@@ -498,8 +498,74 @@ def run(ctx):
         ctx.merge(res)
     for res in lattice.pmap(_cross_method_shard, list(itertools.permutations(METHODS, 2)), w):
         ctx.merge(res)
+    for res in lattice.pmap(_narrow_and_both_shard, list(METHODS), w):
+        ctx.merge(res)
     ctx.cov["methods"] = list(METHODS)
     ctx.cov["supported_grids"] = {m: len(listing(m)) for m in METHODS}
+
+
+def _narrow_and_both_shard(arg):
+    """(a) requests in narrow integer dtypes next to the dtype's maximum (np.int8, np.uint8, np.int16, np.uint16): the
+    answer is that of the Python integer of the same value (seeded change C12-H incremented in the request's dtype and
+    wrapped around); (b) the static lookup with degree AND size given: the documented rule is that the degree decides,
+    and the answer is a pair of the table."""
+    method = arg
+    from grid.angular import AngularGrid
+
+    res = WorkerResult(section="narrow-dtypes")
+    pairs = listing(method)
+    reqs = [(np.int8, v) for v in (100, 120, 126, 127)] + [(np.uint8, v) for v in (128, 200, 250, 254, 255)] \
+        + [(np.int16, v) for v in (1000, 30000, 32766, 32767)] + [(np.uint16, v) for v in (40000, 65535)]
+    with warnings.catch_warnings():
+        warnings.simplefilter("ignore")
+        for kind in ("degree", "size"):
+            for dt, v in reqs:
+                res.count()
+                q = dt(v)
+                exp = (oracle_by_degree if kind == "degree" else oracle_by_size)(pairs, int(v))
+                case = {"route": "narrow", "method": method, "kind": kind, "dtype": dt.__name__, "request": int(v)}
+                try:
+                    got = AngularGrid._get_degree_and_size(degree=q if kind == "degree" else None, size=q if kind == "size" else None, method=method)
+                    got = (int(got[0]), int(got[1]))
+                except ValueError:
+                    got = None
+                except Exception as exc:
+                    got = (type(exc).__name__,)
+                res.nontrivial()
+                if (exp is None) != (got is None) or (exp is not None and tuple(exp) != got):
+                    res.violation(f"narrow:{method}:{kind}:{dt.__name__}:wrong", f"{method} {kind}={dt.__name__}({v}): got {got}, the rule gives "
+                                  f"{exp} (None = rejected)", case)
+        # converter with a uint8 / int16 array
+        for dt, vals in ((np.uint8, [6, 110, 250, 110, 255]), (np.int16, [26, 3000, 32767, 1])):
+            res.count()
+            arr = np.array(vals, dtype=dt)
+            exp = [oracle_by_size(pairs, int(v)) for v in vals]
+            case = {"route": "narrow", "method": method, "kind": "convert", "dtype": dt.__name__, "request": [int(v) for v in vals]}
+            try:
+                got = [int(d) for d in AngularGrid.convert_angular_sizes_to_degrees(arr, method)]
+            except ValueError:
+                got = None
+            res.nontrivial()
+            want = None if any(e is None for e in exp) else [int(e[0]) for e in exp]
+            if got != want:
+                res.violation(f"narrow:{method}:convert:{dt.__name__}:wrong", f"convert_angular_sizes_to_degrees({dt.__name__}{vals}, {method}): "
+                              f"{got}, the rule gives {want}", case)
+        # (b) both arguments
+        degs = [p[0] for p in pairs]
+        for d in (0, degs[0], degs[0] + 1, degs[3], degs[len(degs) // 2] - 1, degs[-1]):
+            for sz in (0, 1, pairs[2][1], pairs[5][1] + 1, 100, pairs[-1][1]):
+                res.count()
+                exp = oracle_by_degree(pairs, d)
+                case = {"route": "narrow", "method": method, "kind": "both", "request": [int(d), int(sz)]}
+                try:
+                    got = AngularGrid._get_degree_and_size(degree=d, size=sz, method=method)
+                    got = (int(got[0]), int(got[1]))
+                except ValueError:
+                    got = None
+                res.nontrivial()
+                if (exp is None) != (got is None) or (exp is not None and tuple(exp) != got):
+                    res.violation(f"lookup:{method}:both-given:wrong", f"{method} degree={d} and size={sz}: got {got}; the degree decides: {exp}", case)
+    return res.as_dict()
 
 
 def _cross_method_shard(arg):
@@ -551,6 +617,8 @@ def _cross_method_shard(arg):
 
 
 def replay(ctx, case):
+    if case.get("route") == "narrow":
+        return ctx.merge(_narrow_and_both_shard(case["method"]))
     if case.get("route") == "cross-method":
         return ctx.merge(_cross_method_shard((case["first"], case["then"])))
     res = WorkerResult()
